@@ -56,7 +56,7 @@ def process_protocol(ctx, binp):
     ctx.notes["process_protocol"] = dict(kinds=kinds, observed=obs, allowed={k: sorted(v) for k, v in allowed.items()})
 
 
-ASSUMPTIONS = ["scripted process/client runner stand in for real peers (the client runner's own guarantees are C10)",
+ASSUMPTIONS = ["scripted process/client runner stand in for real peers in the batch scripts (the client runner's own guarantees are discharged by the reduced ClientMux leg)",
                         "the 10 s serverResponseTimeout (server never answers) is not exercised",
                         "noResult (client drained) and noOutcome (failRemaining) are the same observable error and are compared as one class"]
 RULE = ("every fault script for batches of N cases (N=2 quick; N=3 and 2 thorough): server fault kind x TLS x death position x "
@@ -72,6 +72,10 @@ def run(ctx):
     if ctx.replay and g_refserver.owns_replay(ctx.replay):   # replay file written by the life-cycle leg
         g_refserver.leg(ctx)
         return
+    if ctx.replay and "schedule" in json.load(open(ctx.replay)).get("scenario", {}):   # written by the multiplexer leg
+        import c10
+        c10.run(ctx)
+        return
     mc = ctx.tlc("ServerBatch", "MC_ServerBatch.cfg", timeout=1800)
     ctx.notes["mc_design"] = dict(distinct=mc.distinct, generated=mc.generated)
     batch_leg(ctx, ctx.quick, True)
@@ -81,6 +85,10 @@ def run(ctx):
         sys.path.insert(0, os.path.dirname(os.path.abspath(__file__)))
         import c09
         c09.replay_leg(ctx, True)
+        # ... and "every request handed to the client runner gets its callback exactly once, and a refused send says
+        # so" (a batch ends when all callbacks have come): that is ClientMux.tla's binding, reduced budget
+        import c10
+        c10.reduced_leg(ctx, 1500 if ctx.quick else 6000, "client_mux_leg")
     ctx.cov["exhaustive"] = True
     ctx.cov["rule"] = RULE
     ctx.assumptions += ASSUMPTIONS
